@@ -308,6 +308,12 @@ def calc_task_class():
     from pjplan import Task
     if 'cls' not in _CALC or _CALC['base'] is not Task:
         class CalcTask(Task):
+            grade = 'B'         # class-level default; instances may override it
+
+            @property
+            def weight(self):
+                return len(self.name or '')
+
             @property
             def estimate(self):
                 p = self.__dict__.get('points')
